@@ -121,7 +121,7 @@ def cost_case(draw, classes=("E", "E", "F"), shapes=("tiny", "tiny", "tiny", "sm
 def e2e_config(draw, front=("single", "single", "joint"), max_N=3, max_W=4, max_K=4, t_range=(30, 120),
                limits=(1, 2, 3, 5, 30), betas=(0.0, 1.0, 10.0, 100.0, 1000.0), lam_forms=("scalar", "scalar", "const_matrix", "random_matrix"),
                beta_forms=("scalar", "scalar", "scalar", "vector"), eps_values=(0,), allow_degenerate=False, scales=False,
-               max_series=6, procs=(1,), allow_short=False):
+               max_series=6, procs=(1,), allow_short=False, offsets=()):
     fr = draw(st.sampled_from(list(front)))
     N = draw(st.integers(1, max_N))
     W = draw(st.integers(1, max_W))
@@ -163,6 +163,8 @@ def e2e_config(draw, front=("single", "single", "joint"), max_N=3, max_W=4, max_
     if fr == "joint":
         cfg["beta_form"] = "scalar"          # the joint front end documents a scalar switching cost
         cfg.pop("beta_vector_seed", None)
+    if offsets:
+        cfg["data_offset"] = draw(st.sampled_from(list(offsets)))
     if scales:
         cfg["sensor_scales"] = [10.0 ** draw(st.integers(-6, 6)) for _ in range(N)]
     if allow_degenerate:
